@@ -1,0 +1,1092 @@
+#![allow(missing_docs)]
+
+//! In-memory DOM backend, compiled instead of [`dom.rs`](super) only under
+//! `--cfg leptos_verif`. It offers the same inherent API as the `web-sys`
+//! backed `Dom` so that `build`/`mount`/`rebuild`/`unmount`/`hydrate` can be
+//! executed (and observed) natively, without a browser.
+//!
+//! Semantics follow the DOM standard where the rest of the crate relies on
+//! them: `insert_node` detaches the child from its old parent first, inserting
+//! a document fragment splices its children, an anchor that is not a child of
+//! the parent makes the insertion fail (recorded in [`errors`], like the
+//! exception the browser would log), `class_list` edits the `class` attribute.
+//!
+//! Introspection for test harnesses: [`Node::id`], [`Node::children`],
+//! [`Node::serialize`], [`Node::mutations`], [`mutations`] (global counter),
+//! [`errors`], [`set_html_parser`], [`dispatch_event`], [`document`].
+
+use super::{CastFrom, RemoveEventHandler};
+use crate::view::{Mountable, ToTemplate};
+use std::{
+    any::TypeId,
+    borrow::Cow,
+    cell::{Cell, RefCell},
+    rc::{Rc, Weak},
+};
+use wasm_bindgen::{JsCast, JsValue};
+
+/// A renderer that manipulates an in-memory tree of nodes.
+#[derive(Debug, Copy, Clone, PartialEq, Eq, Hash, PartialOrd, Ord)]
+pub struct Dom;
+
+/// What a node is.
+#[derive(Debug, Clone, PartialEq, Eq)]
+pub enum Kind {
+    Element { tag: String, ns: Option<String> },
+    Text,
+    Comment,
+    /// A document fragment (also the content of a `<template>`).
+    Fragment,
+}
+
+type Callback = Rc<RefCell<Box<dyn FnMut(Event)>>>;
+
+/// One registered event listener.
+#[derive(Clone)]
+pub struct Listener {
+    pub id: u64,
+    pub name: String,
+    pub capture: bool,
+    pub delegated: bool,
+    cb: Callback,
+}
+
+impl std::fmt::Debug for Listener {
+    fn fmt(&self, f: &mut std::fmt::Formatter<'_>) -> std::fmt::Result {
+        write!(f, "Listener({}, {:?})", self.id, self.name)
+    }
+}
+
+/// The data of one node. Public so that harnesses can inspect everything.
+#[derive(Debug)]
+pub struct NodeData {
+    /// Stable, unique (per thread) identity of the node.
+    pub id: u64,
+    pub kind: Kind,
+    /// Data of a text or comment node.
+    pub text: String,
+    /// Attributes in insertion order (`class` lives here too).
+    pub attrs: Vec<(String, String)>,
+    /// Inline style properties set through `style()`, in insertion order.
+    pub styles: Vec<(String, String)>,
+    /// JS properties set through `set_property`, in insertion order.
+    pub props: Vec<(String, String)>,
+    /// Raw HTML given to `set_inner_html` when no parser is installed.
+    pub inner_html: Option<String>,
+    pub parent: Option<Weak<RefCell<NodeData>>>,
+    pub children: Vec<Node>,
+    pub listeners: Vec<Listener>,
+    /// Number of mutations applied to this node (child list, data,
+    /// attributes, classes, styles, properties).
+    pub mutations: u64,
+    /// Content of a `<template>` element.
+    pub content: Option<Node>,
+}
+
+/// A reference-counted handle to a node; equality is identity.
+#[derive(Debug, Clone)]
+pub struct Node(pub Rc<RefCell<NodeData>>);
+
+impl PartialEq for Node {
+    fn eq(&self, other: &Self) -> bool {
+        Rc::ptr_eq(&self.0, &other.0)
+    }
+}
+impl Eq for Node {}
+
+macro_rules! wrapper {
+    ($($name:ident),*) => {$(
+        #[derive(Debug, Clone, PartialEq, Eq)]
+        pub struct $name(pub Node);
+        impl AsRef<Node> for $name {
+            fn as_ref(&self) -> &Node { &self.0 }
+        }
+        impl std::ops::Deref for $name {
+            type Target = Node;
+            fn deref(&self) -> &Node { &self.0 }
+        }
+        impl From<$name> for Node {
+            fn from(value: $name) -> Node { value.0 }
+        }
+        impl From<Node> for $name {
+            fn from(value: Node) -> $name { $name(value) }
+        }
+    )*};
+}
+wrapper!(
+    Element,
+    Text,
+    Placeholder,
+    ClassList,
+    CssStyleDeclaration,
+    TemplateElement
+);
+
+impl AsRef<Node> for Node {
+    fn as_ref(&self) -> &Node {
+        self
+    }
+}
+impl AsRef<Element> for Element {
+    fn as_ref(&self) -> &Element {
+        self
+    }
+}
+
+pub type Event = JsValue;
+
+type HtmlParser = Rc<dyn Fn(&str) -> Vec<Node>>;
+
+thread_local! {
+    static NEXT_ID: Cell<u64> = const { Cell::new(1) };
+    static MUTATIONS: Cell<u64> = const { Cell::new(0) };
+    static ERRORS: RefCell<Vec<String>> = const { RefCell::new(Vec::new()) };
+    static PARSER: RefCell<Option<HtmlParser>> = const { RefCell::new(None) };
+    static EVENT_TARGET: RefCell<Option<Element>> = const { RefCell::new(None) };
+    static TEMPLATES: RefCell<Vec<(TypeId, TemplateElement)>> = const { RefCell::new(Vec::new()) };
+}
+
+fn next_id() -> u64 {
+    NEXT_ID.with(|n| {
+        let v = n.get();
+        n.set(v + 1);
+        v
+    })
+}
+
+/// Total number of mutations applied to any node on this thread.
+pub fn mutations() -> u64 {
+    MUTATIONS.with(Cell::get)
+}
+
+/// Operations the browser would have rejected with an exception (which the
+/// real backend logs and ignores), oldest first.
+pub fn errors() -> Vec<String> {
+    ERRORS.with(|e| e.borrow().clone())
+}
+
+/// Empties the list returned by [`errors`].
+pub fn clear_errors() {
+    ERRORS.with(|e| e.borrow_mut().clear())
+}
+
+fn error(msg: String) {
+    ERRORS.with(|e| e.borrow_mut().push(msg))
+}
+
+/// Installs the function used to turn HTML text into nodes for
+/// `set_inner_html`, `get_template` and `create_element_from_html`. The parser
+/// builds nodes through [`Dom::create_element`], [`Dom::create_text_node`],
+/// [`Dom::create_comment`] and [`Dom::insert_node`] and returns the top-level
+/// nodes. Without a parser `set_inner_html` only records the text
+/// (`NodeData::inner_html`) and templates panic.
+pub fn set_html_parser(parser: impl Fn(&str) -> Vec<Node> + 'static) {
+    PARSER.with(|p| *p.borrow_mut() = Some(Rc::new(parser)));
+}
+
+/// Removes the parser installed by [`set_html_parser`].
+pub fn clear_html_parser() {
+    PARSER.with(|p| *p.borrow_mut() = None);
+}
+
+fn parse_html(html: &str) -> Option<Vec<Node>> {
+    let parser = PARSER.with(|p| p.borrow().clone());
+    parser.map(|p| p(html))
+}
+
+/// Calls the listeners for `name` registered on `target` and on its
+/// ancestors (capturing listeners first, outermost first; then target and
+/// bubbling listeners, innermost first). The event value handed to the
+/// listeners is `JsValue::NULL`; `Dom::event_target` returns `target` while
+/// the listeners run. Returns how many listeners were called.
+pub fn dispatch_event(target: &Element, name: &str) -> usize {
+    let mut path = vec![target.0.clone()];
+    while let Some(p) = path.last().unwrap().parent_node() {
+        path.push(p);
+    }
+    let collect = |node: &Node, capture: bool| -> Vec<Callback> {
+        node.0
+            .borrow()
+            .listeners
+            .iter()
+            .filter(|l| l.name == name && l.capture == capture)
+            .map(|l| l.cb.clone())
+            .collect()
+    };
+    let mut cbs = Vec::new();
+    for node in path.iter().rev() {
+        cbs.extend(collect(node, true));
+    }
+    for node in path.iter() {
+        cbs.extend(collect(node, false));
+    }
+    let prev = EVENT_TARGET.with(|t| t.replace(Some(target.clone())));
+    let n = cbs.len();
+    for cb in cbs {
+        (cb.borrow_mut())(JsValue::NULL);
+    }
+    EVENT_TARGET.with(|t| *t.borrow_mut() = prev);
+    n
+}
+
+impl Node {
+    fn new(kind: Kind, text: &str) -> Node {
+        Node(Rc::new(RefCell::new(NodeData {
+            id: next_id(),
+            kind,
+            text: text.into(),
+            attrs: vec![],
+            styles: vec![],
+            props: vec![],
+            inner_html: None,
+            parent: None,
+            children: vec![],
+            listeners: vec![],
+            mutations: 0,
+            content: None,
+        })))
+    }
+
+    fn touch(&self) {
+        self.0.borrow_mut().mutations += 1;
+        MUTATIONS.with(|m| m.set(m.get() + 1));
+    }
+
+    /// The stable identity of this node.
+    pub fn id(&self) -> u64 {
+        self.0.borrow().id
+    }
+
+    pub fn kind(&self) -> Kind {
+        self.0.borrow().kind.clone()
+    }
+
+    /// Tag name of an element (`None` for other nodes).
+    pub fn tag(&self) -> Option<String> {
+        match &self.0.borrow().kind {
+            Kind::Element { tag, .. } => Some(tag.clone()),
+            _ => None,
+        }
+    }
+
+    pub fn is_element(&self) -> bool {
+        matches!(self.0.borrow().kind, Kind::Element { .. })
+    }
+
+    /// `Node.nodeType`: 1 element, 3 text, 8 comment, 11 document fragment.
+    pub fn node_type(&self) -> u16 {
+        match self.0.borrow().kind {
+            Kind::Element { .. } => 1,
+            Kind::Text => 3,
+            Kind::Comment => 8,
+            Kind::Fragment => 11,
+        }
+    }
+
+    /// Wraps the node as `T` without checking its kind (the counterpart of
+    /// `JsCast::unchecked_into`).
+    pub fn unchecked_into<T: From<Node>>(self) -> T {
+        T::from(self)
+    }
+
+    /// Number of mutations applied to this node itself.
+    pub fn mutations(&self) -> u64 {
+        self.0.borrow().mutations
+    }
+
+    /// Number of mutations applied to this node and all its descendants.
+    pub fn subtree_mutations(&self) -> u64 {
+        let d = self.0.borrow();
+        d.mutations
+            + d.children.iter().map(Node::subtree_mutations).sum::<u64>()
+    }
+
+    /// The child nodes, in order.
+    pub fn children(&self) -> Vec<Node> {
+        self.0.borrow().children.clone()
+    }
+
+    /// The ids of the child nodes, in order.
+    pub fn child_ids(&self) -> Vec<u64> {
+        self.0.borrow().children.iter().map(Node::id).collect()
+    }
+
+    pub fn attributes(&self) -> Vec<(String, String)> {
+        self.0.borrow().attrs.clone()
+    }
+
+    pub fn get_attribute(&self, name: &str) -> Option<String> {
+        self.0
+            .borrow()
+            .attrs
+            .iter()
+            .find(|a| a.0 == name)
+            .map(|a| a.1.clone())
+    }
+
+    /// The tokens of the `class` attribute, in order.
+    pub fn classes(&self) -> Vec<String> {
+        self.get_attribute("class")
+            .unwrap_or_default()
+            .split_ascii_whitespace()
+            .map(str::to_owned)
+            .collect()
+    }
+
+    pub fn styles(&self) -> Vec<(String, String)> {
+        self.0.borrow().styles.clone()
+    }
+
+    pub fn properties(&self) -> Vec<(String, String)> {
+        self.0.borrow().props.clone()
+    }
+
+    pub fn parent_node(&self) -> Option<Node> {
+        self.0
+            .borrow()
+            .parent
+            .as_ref()
+            .and_then(Weak::upgrade)
+            .map(Node)
+    }
+
+    pub fn parent_element(&self) -> Option<Element> {
+        self.parent_node().and_then(Element::cast_from)
+    }
+
+    pub fn first_child(&self) -> Option<Node> {
+        self.0.borrow().children.first().cloned()
+    }
+
+    pub fn next_sibling(&self) -> Option<Node> {
+        let parent = self.parent_node()?;
+        let pd = parent.0.borrow();
+        let idx = pd.children.iter().position(|c| c == self)?;
+        pd.children.get(idx + 1).cloned()
+    }
+
+    pub fn previous_sibling(&self) -> Option<Node> {
+        let parent = self.parent_node()?;
+        let pd = parent.0.borrow();
+        let idx = pd.children.iter().position(|c| c == self)?;
+        idx.checked_sub(1).and_then(|i| pd.children.get(i).cloned())
+    }
+
+    /// Detaches this node from its parent, if it has one.
+    pub fn remove(&self) {
+        if let Some(parent) = self.parent_node() {
+            parent.0.borrow_mut().children.retain(|c| c != self);
+            parent.touch();
+        }
+        self.0.borrow_mut().parent = None;
+    }
+
+    /// `Node.textContent`: data of a text/comment node, concatenated text of
+    /// the descendants otherwise.
+    pub fn text_content(&self) -> Option<String> {
+        let d = self.0.borrow();
+        match d.kind {
+            Kind::Text | Kind::Comment => Some(d.text.clone()),
+            _ => Some(
+                d.children
+                    .iter()
+                    .filter(|c| c.0.borrow().kind != Kind::Comment)
+                    .map(|c| c.text_content().unwrap_or_default())
+                    .collect(),
+            ),
+        }
+    }
+
+    /// Data of a text or comment node.
+    pub fn data(&self) -> String {
+        self.0.borrow().text.clone()
+    }
+
+    fn contains(&self, other: &Node) -> bool {
+        let mut cur = Some(other.clone());
+        while let Some(n) = cur {
+            if &n == self {
+                return true;
+            }
+            cur = n.parent_node();
+        }
+        false
+    }
+
+    /// A deep copy (fresh ids, no listeners, no properties), like
+    /// `cloneNode(true)`.
+    pub fn clone_deep(&self) -> Node {
+        let d = self.0.borrow();
+        let copy = Node::new(d.kind.clone(), &d.text);
+        {
+            let mut c = copy.0.borrow_mut();
+            c.attrs = d.attrs.clone();
+            c.styles = d.styles.clone();
+            c.inner_html = d.inner_html.clone();
+            c.content = d.content.as_ref().map(Node::clone_deep);
+            c.children = d.children.iter().map(Node::clone_deep).collect();
+            for child in &c.children {
+                child.0.borrow_mut().parent = Some(Rc::downgrade(&copy.0));
+            }
+        }
+        copy
+    }
+
+    /// Canonical text form of this node and its descendants:
+    /// `<tag a="v" style="p:v;">children</tag>`, text as `"data"` (Rust
+    /// `Debug` escaping), comments as `<!--data-->`, fragments as the
+    /// concatenation of their children.
+    pub fn serialize(&self) -> String {
+        let mut out = String::new();
+        self.serialize_into(&mut out);
+        out
+    }
+
+    fn serialize_into(&self, out: &mut String) {
+        use std::fmt::Write;
+        let d = self.0.borrow();
+        match &d.kind {
+            Kind::Text => {
+                let _ = write!(out, "{:?}", d.text);
+            }
+            Kind::Comment => {
+                let _ = write!(out, "<!--{}-->", d.text);
+            }
+            Kind::Fragment => {
+                for child in &d.children {
+                    child.serialize_into(out);
+                }
+            }
+            Kind::Element { tag, .. } => {
+                let _ = write!(out, "<{tag}");
+                for (k, v) in &d.attrs {
+                    let _ = write!(out, " {k}={v:?}");
+                }
+                if !d.styles.is_empty() {
+                    out.push_str(" :style=\"");
+                    for (k, v) in &d.styles {
+                        let _ = write!(out, "{k}:{v};");
+                    }
+                    out.push('"');
+                }
+                for (k, v) in &d.props {
+                    let _ = write!(out, " .{k}={v}");
+                }
+                out.push('>');
+                if let Some(html) = &d.inner_html {
+                    let _ = write!(out, "[html {html:?}]");
+                }
+                for child in &d.children {
+                    child.serialize_into(out);
+                }
+                let _ = write!(out, "</{tag}>");
+            }
+        }
+    }
+
+    /// Serialization of the children only (`innerHTML`-like).
+    pub fn serialize_children(&self) -> String {
+        let mut out = String::new();
+        for child in &self.0.borrow().children {
+            child.serialize_into(&mut out);
+        }
+        out
+    }
+}
+
+impl Element {
+    /// The first child that is an element.
+    pub fn first_element_child(&self) -> Option<Element> {
+        self.0
+            .children()
+            .into_iter()
+            .find(Node::is_element)
+            .map(Element)
+    }
+}
+
+/// The per-thread in-memory document: `<html><head></head><body></body></html>`.
+#[derive(Debug, Clone, PartialEq, Eq)]
+pub struct Document(pub Element);
+
+thread_local! {
+    static DOCUMENT: RefCell<Option<Document>> = const { RefCell::new(None) };
+}
+
+/// Returns this thread's document, creating it on first use.
+pub fn document() -> Document {
+    DOCUMENT.with(|d| {
+        d.borrow_mut()
+            .get_or_insert_with(|| {
+                let html = Dom::create_element("html", None);
+                let head = Dom::create_element("head", None);
+                let body = Dom::create_element("body", None);
+                Dom::insert_node(&html, &head, None);
+                Dom::insert_node(&html, &body, None);
+                Document(html)
+            })
+            .clone()
+    })
+}
+
+/// Discards this thread's document; the next [`document`] call makes a new one.
+pub fn reset_document() {
+    DOCUMENT.with(|d| *d.borrow_mut() = None);
+}
+
+impl Document {
+    pub fn document_element(&self) -> Option<Element> {
+        Some(self.0.clone())
+    }
+
+    fn child(&self, tag: &str) -> Option<Element> {
+        self.0
+            .children()
+            .into_iter()
+            .find(|c| c.tag().as_deref() == Some(tag))
+            .map(Element)
+    }
+
+    pub fn head(&self) -> Option<Element> {
+        self.child("head")
+    }
+
+    pub fn body(&self) -> Option<Element> {
+        self.child("body")
+    }
+}
+
+impl TemplateElement {
+    /// The template's content fragment.
+    pub fn content(&self) -> Node {
+        self.0 .0.borrow().content.clone().expect("template content")
+    }
+}
+
+fn set_in(list: &mut Vec<(String, String)>, name: &str, value: String) {
+    if let Some(entry) = list.iter_mut().find(|a| a.0 == name) {
+        entry.1 = value;
+    } else {
+        list.push((name.into(), value));
+    }
+}
+
+fn describe_js(value: &JsValue) -> String {
+    // Only the constants can exist off-wasm; everything else is an index
+    // into the JS heap.
+    use wasm_bindgen::convert::IntoWasmAbi;
+    let idx: u32 = value.into_abi();
+    let (undefined, null, t, f) = (
+        (&JsValue::UNDEFINED).into_abi(),
+        (&JsValue::NULL).into_abi(),
+        (&JsValue::TRUE).into_abi(),
+        (&JsValue::FALSE).into_abi(),
+    );
+    if idx == undefined {
+        "undefined".into()
+    } else if idx == null {
+        "null".into()
+    } else if idx == t {
+        "true".into()
+    } else if idx == f {
+        "false".into()
+    } else {
+        format!("#{idx}")
+    }
+}
+
+impl Dom {
+    pub fn intern(text: &str) -> &str {
+        text
+    }
+
+    pub fn create_element(tag: &str, namespace: Option<&str>) -> Element {
+        Element(Node::new(
+            Kind::Element {
+                tag: tag.into(),
+                ns: namespace.map(Into::into),
+            },
+            "",
+        ))
+    }
+
+    pub fn create_text_node(text: &str) -> Text {
+        Text(Node::new(Kind::Text, text))
+    }
+
+    pub fn create_placeholder() -> Placeholder {
+        Placeholder(Node::new(Kind::Comment, ""))
+    }
+
+    /// Creates a comment node with the given data (for HTML parsers).
+    pub fn create_comment(data: &str) -> Placeholder {
+        Placeholder(Node::new(Kind::Comment, data))
+    }
+
+    /// Creates an empty document fragment (for HTML parsers and harnesses).
+    pub fn create_fragment() -> Element {
+        Element(Node::new(Kind::Fragment, ""))
+    }
+
+    pub fn set_text(node: &Text, text: &str) {
+        node.0 .0.borrow_mut().text = text.into();
+        node.0.touch();
+    }
+
+    pub fn set_attribute(node: &Element, name: &str, value: &str) {
+        set_in(&mut node.0 .0.borrow_mut().attrs, name, value.into());
+        node.0.touch();
+    }
+
+    pub fn remove_attribute(node: &Element, name: &str) {
+        node.0 .0.borrow_mut().attrs.retain(|a| a.0 != name);
+        node.0.touch();
+    }
+
+    pub fn insert_node(
+        parent: &Element,
+        new_child: &Node,
+        anchor: Option<&Node>,
+    ) {
+        let parent = &parent.0;
+        if let Some(anchor) = anchor {
+            if anchor.parent_node().as_ref() != Some(parent) {
+                error(format!(
+                    "insertNode: NotFoundError: anchor #{} is not a child of \
+                     #{}",
+                    anchor.id(),
+                    parent.id()
+                ));
+                return;
+            }
+        }
+        if new_child.contains(parent) {
+            error(format!(
+                "insertNode: HierarchyRequestError: #{} contains #{}",
+                new_child.id(),
+                parent.id()
+            ));
+            return;
+        }
+        // "If referenceChild is node, set referenceChild to node's next sibling."
+        let anchor = match anchor {
+            Some(a) if a == new_child => a.next_sibling(),
+            Some(a) => Some(a.clone()),
+            None => None,
+        };
+        let is_fragment = new_child.0.borrow().kind == Kind::Fragment;
+        let nodes = if is_fragment {
+            let nodes = std::mem::take(&mut new_child.0.borrow_mut().children);
+            new_child.touch();
+            nodes
+        } else {
+            new_child.remove();
+            vec![new_child.clone()]
+        };
+        {
+            let mut pd = parent.0.borrow_mut();
+            let mut idx = match &anchor {
+                Some(a) => pd
+                    .children
+                    .iter()
+                    .position(|c| c == a)
+                    .expect("anchor is a child"),
+                None => pd.children.len(),
+            };
+            for node in nodes {
+                node.0.borrow_mut().parent = Some(Rc::downgrade(&parent.0));
+                pd.children.insert(idx, node);
+                idx += 1;
+            }
+        }
+        parent.touch();
+    }
+
+    pub fn remove_node(parent: &Element, child: &Node) -> Option<Node> {
+        if child.parent_node().as_ref() == Some(&parent.0) {
+            child.remove();
+            Some(child.clone())
+        } else {
+            error(format!(
+                "removeNode: NotFoundError: #{} is not a child of #{}",
+                child.id(),
+                parent.id()
+            ));
+            None
+        }
+    }
+
+    pub fn remove(node: &Node) {
+        node.remove();
+    }
+
+    pub fn get_parent(node: &Node) -> Option<Node> {
+        node.parent_node()
+    }
+
+    pub fn first_child(node: &Node) -> Option<Node> {
+        let child = node.first_child();
+        #[cfg(debug_assertions)]
+        if let Some(child) = child.as_ref() {
+            if child.0.borrow().kind == Kind::Comment
+                && child.0.borrow().text.starts_with("hot-reload")
+            {
+                return Self::next_sibling(child);
+            }
+        }
+        child
+    }
+
+    pub fn next_sibling(node: &Node) -> Option<Node> {
+        let next = node.next_sibling();
+        #[cfg(debug_assertions)]
+        if let Some(next) = next.as_ref() {
+            if next.0.borrow().kind == Kind::Comment
+                && next.0.borrow().text.starts_with("hot-reload")
+            {
+                return Self::next_sibling(next);
+            }
+        }
+        next
+    }
+
+    pub fn log_node(_node: &Node) {}
+
+    pub fn clear_children(parent: &Element) {
+        let children = std::mem::take(&mut parent.0 .0.borrow_mut().children);
+        for child in children {
+            child.0.borrow_mut().parent = None;
+        }
+        parent.0 .0.borrow_mut().inner_html = None;
+        parent.0.touch();
+    }
+
+    /// Mounts the new child before the marker as its sibling.
+    ///
+    /// ## Panics
+    /// Panics if `before` does not have a parent [`crate::renderer::types::Element`].
+    pub fn mount_before<M>(new_child: &mut M, before: &Node)
+    where
+        M: Mountable,
+    {
+        let parent = Element::cast_from(
+            Self::get_parent(before).expect("could not find parent element"),
+        )
+        .expect("placeholder parent should be Element");
+        new_child.mount(&parent, Some(before));
+    }
+
+    /// Tries to mount the new child before the marker as its sibling.
+    ///
+    /// Returns `false` if the child did not have a valid parent.
+    #[track_caller]
+    pub fn try_mount_before<M>(new_child: &mut M, before: &Node) -> bool
+    where
+        M: Mountable,
+    {
+        if let Some(parent) =
+            Self::get_parent(before).and_then(Element::cast_from)
+        {
+            new_child.mount(&parent, Some(before));
+            true
+        } else {
+            false
+        }
+    }
+
+    pub fn set_property(el: &Element, key: &str, value: &JsValue) {
+        set_in(&mut el.0 .0.borrow_mut().props, key, describe_js(value));
+        el.0.touch();
+    }
+
+    fn listen(
+        el: &Element,
+        name: &str,
+        capture: bool,
+        delegated: bool,
+        cb: Box<dyn FnMut(Event)>,
+    ) -> RemoveEventHandler<Element> {
+        let id = next_id();
+        el.0 .0.borrow_mut().listeners.push(Listener {
+            id,
+            name: name.into(),
+            capture,
+            delegated,
+            cb: Rc::new(RefCell::new(cb)),
+        });
+        RemoveEventHandler::new(move |el: &Element| {
+            el.0 .0.borrow_mut().listeners.retain(|l| l.id != id);
+        })
+    }
+
+    pub fn add_event_listener(
+        el: &Element,
+        name: &str,
+        cb: Box<dyn FnMut(Event)>,
+    ) -> RemoveEventHandler<Element> {
+        Self::listen(el, name, false, false, cb)
+    }
+
+    pub fn add_event_listener_use_capture(
+        el: &Element,
+        name: &str,
+        cb: Box<dyn FnMut(Event)>,
+    ) -> RemoveEventHandler<Element> {
+        Self::listen(el, name, true, false, cb)
+    }
+
+    pub fn event_target<T>(_ev: &Event) -> T
+    where
+        T: CastFrom<Element>,
+    {
+        let el = EVENT_TARGET
+            .with(|t| t.borrow().clone())
+            .expect("event.target not found");
+        T::cast_from(el).expect("incorrect element type")
+    }
+
+    pub fn add_event_listener_delegated(
+        el: &Element,
+        name: Cow<'static, str>,
+        _delegation_key: Cow<'static, str>,
+        cb: Box<dyn FnMut(Event)>,
+    ) -> RemoveEventHandler<Element> {
+        Self::listen(el, &name, false, true, cb)
+    }
+
+    pub fn class_list(el: &Element) -> ClassList {
+        ClassList(el.0.clone())
+    }
+
+    pub fn add_class(list: &ClassList, name: &str) {
+        let mut tokens = list.0.classes();
+        if !tokens.iter().any(|t| t == name) {
+            tokens.push(name.into());
+        }
+        set_in(&mut list.0 .0.borrow_mut().attrs, "class", tokens.join(" "));
+        list.0.touch();
+    }
+
+    pub fn remove_class(list: &ClassList, name: &str) {
+        if list.0.get_attribute("class").is_some() {
+            let tokens = list
+                .0
+                .classes()
+                .into_iter()
+                .filter(|t| t != name)
+                .collect::<Vec<_>>();
+            set_in(
+                &mut list.0 .0.borrow_mut().attrs,
+                "class",
+                tokens.join(" "),
+            );
+        }
+        list.0.touch();
+    }
+
+    pub fn style(el: &Element) -> CssStyleDeclaration {
+        CssStyleDeclaration(el.0.clone())
+    }
+
+    pub fn set_css_property(
+        style: &CssStyleDeclaration,
+        name: &str,
+        value: &str,
+    ) {
+        set_in(&mut style.0 .0.borrow_mut().styles, name, value.into());
+        style.0.touch();
+    }
+
+    pub fn remove_css_property(style: &CssStyleDeclaration, name: &str) {
+        style.0 .0.borrow_mut().styles.retain(|a| a.0 != name);
+        style.0.touch();
+    }
+
+    pub fn set_inner_html(el: &Element, html: &str) {
+        Self::clear_children(el);
+        match parse_html(html) {
+            Some(nodes) => {
+                for node in nodes {
+                    Self::insert_node(el, &node, None);
+                }
+            }
+            None => {
+                el.0 .0.borrow_mut().inner_html = Some(html.into());
+            }
+        }
+    }
+
+    fn template_from_html(html: &str) -> TemplateElement {
+        let nodes = parse_html(html).unwrap_or_else(|| {
+            panic!(
+                "templates need an HTML parser: call \
+                 renderer::dom::set_html_parser first"
+            )
+        });
+        let tpl = Node::new(
+            Kind::Element {
+                tag: "template".into(),
+                ns: None,
+            },
+            "",
+        );
+        let content = Self::create_fragment();
+        for node in nodes {
+            Self::insert_node(&content, &node, None);
+        }
+        tpl.0.borrow_mut().content = Some(content.0);
+        TemplateElement(tpl)
+    }
+
+    pub fn get_template<V>() -> TemplateElement
+    where
+        V: ToTemplate + 'static,
+    {
+        let id = TypeId::of::<V>();
+        let cached = TEMPLATES.with(|t| {
+            t.borrow().iter().find(|e| e.0 == id).map(|e| e.1.clone())
+        });
+        if let Some(tpl) = cached {
+            return tpl;
+        }
+        let mut buf = String::new();
+        V::to_template(
+            &mut buf,
+            &mut String::new(),
+            &mut String::new(),
+            &mut String::new(),
+            &mut Default::default(),
+        );
+        let tpl = Self::template_from_html(&buf);
+        TEMPLATES.with(|t| t.borrow_mut().push((id, tpl.clone())));
+        tpl
+    }
+
+    pub fn clone_template(tpl: &TemplateElement) -> Element {
+        Element(tpl.content().clone_deep())
+    }
+
+    pub fn create_element_from_html(html: &str) -> Element {
+        let tpl = Self::template_from_html(html);
+        let tpl = Self::clone_template(&tpl);
+        tpl.first_element_child().unwrap_or(tpl)
+    }
+}
+
+macro_rules! mountable {
+    ($($ty:ty => $elements:expr),*) => {$(
+        impl Mountable for $ty {
+            fn unmount(&mut self) {
+                let node: &Node = self.as_ref();
+                node.remove();
+            }
+
+            fn mount(&mut self, parent: &Element, marker: Option<&Node>) {
+                Dom::insert_node(parent, self.as_ref(), marker);
+            }
+
+            fn insert_before_this(&self, child: &mut dyn Mountable) -> bool {
+                let node: &Node = self.as_ref();
+                let parent = Dom::get_parent(node).and_then(Element::cast_from);
+                if let Some(parent) = parent {
+                    child.mount(&parent, Some(node));
+                    return true;
+                }
+                false
+            }
+
+            fn elements(&self) -> Vec<crate::renderer::types::Element> {
+                $elements(self)
+            }
+        }
+    )*};
+}
+mountable!(
+    Node => |_: &Node| vec![],
+    Text => |_: &Text| vec![],
+    Placeholder => |_: &Placeholder| vec![],
+    Element => |this: &Element| vec![this.clone()]
+);
+
+impl CastFrom<Node> for Text {
+    fn cast_from(node: Node) -> Option<Text> {
+        let ok = node.0.borrow().kind == Kind::Text;
+        ok.then(|| Text(node))
+    }
+}
+
+impl CastFrom<Node> for Placeholder {
+    fn cast_from(node: Node) -> Option<Placeholder> {
+        let ok = node.0.borrow().kind == Kind::Comment;
+        ok.then(|| Placeholder(node))
+    }
+}
+
+impl CastFrom<Node> for Element {
+    fn cast_from(node: Node) -> Option<Element> {
+        node.is_element().then(|| Element(node))
+    }
+}
+
+impl CastFrom<Element> for Element {
+    fn cast_from(source: Element) -> Option<Element> {
+        Some(source)
+    }
+}
+
+impl<T> CastFrom<JsValue> for T
+where
+    T: wasm_bindgen::JsCast,
+{
+    fn cast_from(source: JsValue) -> Option<Self> {
+        source.dyn_into::<T>().ok()
+    }
+}
+
+// There are no JS objects behind native elements.
+impl<T> CastFrom<Element> for T
+where
+    T: wasm_bindgen::JsCast,
+{
+    fn cast_from(_source: Element) -> Option<Self> {
+        None
+    }
+}
+
+#[cfg(feature = "reactive_graph")]
+mod bind_impls {
+    use super::Element;
+    use crate::{
+        html::attribute::AttributeValue,
+        reactive_graph::bind::{ChangeEvent, FromEventTarget, GetValue},
+        renderer::RemoveEventHandler,
+    };
+    use reactive_graph::traits::Set;
+
+    // Change events carry JS values, which do not exist natively.
+    impl ChangeEvent for Element {
+        fn attach_change_event<T, W>(
+            &self,
+            _key: &str,
+            _write_signal: W,
+        ) -> RemoveEventHandler<Self>
+        where
+            T: FromEventTarget + AttributeValue + 'static,
+            W: Set<Value = T> + 'static,
+        {
+            RemoveEventHandler::new(|_| {})
+        }
+    }
+
+    impl GetValue<String> for Element {
+        fn get_value(&self) -> String {
+            self.0.get_attribute("value").unwrap_or_default()
+        }
+    }
+
+    impl GetValue<bool> for Element {
+        fn get_value(&self) -> bool {
+            self.0.get_attribute("checked").is_some()
+        }
+    }
+}
